@@ -555,7 +555,7 @@ func knownNonNilAt(v ssa.Value, at ssa.Instruction) bool {
 			continue
 		}
 		_ = other
-		if subj != v && !sameLocalLoad(subj, v) {
+		if subj != v && !sameLocalLoad(subj, v) && !sameContextErr(subj, v) {
 			continue
 		}
 		if (b.Op == token.NEQ && h.Pol) || (b.Op == token.EQL && !h.Pol) {
@@ -1243,4 +1243,21 @@ func errPassedThroughNonNil(f *ssa.Function, call *ssa.Call, depth int) bool {
 		}
 	}
 	return true
+}
+
+// sameContextErr: both values are ctx.Err() of the same context. A context's error is sticky (nil until it is done,
+// then the same non-nil error for ever), so `if ctx.Err() != nil { return ctx.Err() }` returns a non-nil error.
+func sameContextErr(a, b ssa.Value) bool {
+	ca, ok1 := a.(*ssa.Call)
+	cb, ok2 := b.(*ssa.Call)
+	if !ok1 || !ok2 || !ca.Call.IsInvoke() || !cb.Call.IsInvoke() {
+		return false
+	}
+	if ca.Call.Method.Name() != "Err" || cb.Call.Method.Name() != "Err" {
+		return false
+	}
+	if namedOf(ca.Call.Value.Type()) != "context.Context" || namedOf(cb.Call.Value.Type()) != "context.Context" {
+		return false
+	}
+	return sameValue(ca.Call.Value, cb.Call.Value, 0)
 }
